@@ -42,7 +42,7 @@ Ltac brk := repeat (brk1; cbn [fst snd]).
 Ltac brkh := repeat (match goal with H : context [match ?e with _ => _ end] |- _ => dsmart e end; cbn [fst snd] in *);
              repeat match goal with H : (_, _) = (_, _) |- _ => injection H as <- <- end.
 
-Ltac fin := unfold rstatic, nstatic in *; prj; rewrite ?zset_length in *; intuition congruence.
+Ltac fin := unfold rstatic, nstatic in *; prj; rewrite ?zset_length, ?map_length in *; intuition congruence.
 
 (* ---------- part 1 (NodeDefs) ---------- *)
 Lemma claim_started_st n i : nstatic n (fst (claim_started n i)).
@@ -202,6 +202,8 @@ Definition htp_rts (r:rnode) (src dst:Z) (buf:list Z) : bool * rnode * list even
     let tpgn := le3 buf 5 in
       let nbytes := byte buf 1 + 256 * byte buf 2 in
       let maxp := byte buf 3 in
+      let r := with_slots r (map (fun s => if negb (s_free s) && s_tp s && (s_src s =? src) && (s_dst s =? dst) && negb (s_pgn s =? tpgn)
+                                           then free_slot s else s) (r_slots r)) in
       let '(slots1, idx) := find_free_slot r tpgn src dst true in
       let r1 := with_slots r slots1 in
       if idx =? mx then
@@ -226,7 +228,7 @@ Definition htp_rts (r:rnode) (src dst:Z) (buf:list Z) : bool * rnode * list even
           if (ctrl =? c_TP_CM_RTS) && (idev >=? 0) then let '(r3, ev) := send_tpcm_abort r2 tpgn src idev c_TP_CM_AbortBusy in (true, r3, ev, mx)
           else (true, r2, [], mx).
 
-Definition htp_cts (r:rnode) (dst:Z) (buf:list Z) : bool * rnode * list event * Z :=
+Definition htp_cts (r:rnode) (src dst:Z) (buf:list Z) : bool * rnode * list event * Z :=
   let mx := nslots r in
   let idev := find_source_device r dst in
     let tpgn := le3 buf 5 in
@@ -236,6 +238,7 @@ Definition htp_cts (r:rnode) (dst:Z) (buf:list Z) : bool * rnode * list event * 
       | None => (true, r, [], mx)
       | Some pm =>
         if m_dst pm =? 255 then (true, r, [], mx) else
+        if negb (m_dst pm =? src) then (true, r, [], mx) else
         if negb (m_pgn pm =? tpgn) then (true, end_send_tp_r r idev, [], mx) else
         if byte buf 1 >? 0 then
           if negb (byte buf 2 - 1 =? d_next_dt_seq d) then (true, end_send_tp_r r idev, [], mx) else
@@ -247,13 +250,13 @@ Definition htp_cts (r:rnode) (dst:Z) (buf:list Z) : bool * rnode * list event * 
           (true, set_dev_tp r idev (d_tp_msg d) (sched_from_now (w64 r) (now r) 100) (d_next_dt_seq d), [], mx)
       end.
 
-Definition htp_ack (r:rnode) (dst:Z) : bool * rnode * list event * Z :=
+Definition htp_ack (r:rnode) (src dst:Z) : bool * rnode * list event * Z :=
   let mx := nslots r in
   let idev := find_source_device r dst in
       if negb ((0 <=? idev) && (idev <? dev_count (rn r))) then (true, r, [], mx) else
       let d := get_dev (rn r) idev in
       match d_tp_msg d with
-      | Some pm => if m_dst pm =? 255 then (true, r, [], mx) else (true, end_send_tp_r r idev, [], mx)
+      | Some pm => if (m_dst pm =? 255) || negb (m_dst pm =? src) then (true, r, [], mx) else (true, end_send_tp_r r idev, [], mx)
       | None => (true, r, [], mx)
       end.
 
@@ -292,8 +295,8 @@ Lemma handle_tp_split r pgn src dst len buf :
   if pgn =? c_TP_CM then
     let ctrl := byte buf 0 in
     if (ctrl =? c_TP_CM_BAM) || (ctrl =? c_TP_CM_RTS) then htp_rts r src dst buf
-    else if ctrl =? c_TP_CM_CTS then htp_cts r dst buf
-    else if (ctrl =? c_TP_CM_ACK) || (ctrl =? c_TP_CM_Abort) then htp_ack r dst
+    else if ctrl =? c_TP_CM_CTS then htp_cts r src dst buf
+    else if (ctrl =? c_TP_CM_ACK) || (ctrl =? c_TP_CM_Abort) then htp_ack r src dst
     else (true, r, [], nslots r)
   else if pgn =? c_TP_DT then htp_dt r src dst len buf
   else (false, r, [], nslots r).
@@ -305,9 +308,9 @@ Ltac htp_fin := cbv zeta; brk; cbn [fst snd]; fwall4; addf4;
     fin.
 Lemma htp_rts_st r src dst buf : rstatic r (snd (fst (fst (htp_rts r src dst buf)))).
 Proof. unfold htp_rts. htp_fin. Qed.
-Lemma htp_cts_st r dst buf : rstatic r (snd (fst (fst (htp_cts r dst buf)))).
+Lemma htp_cts_st r src dst buf : rstatic r (snd (fst (fst (htp_cts r src dst buf)))).
 Proof. unfold htp_cts. htp_fin. Qed.
-Lemma htp_ack_st r dst : rstatic r (snd (fst (fst (htp_ack r dst)))).
+Lemma htp_ack_st r src dst : rstatic r (snd (fst (fst (htp_ack r src dst)))).
 Proof. unfold htp_ack. htp_fin. Qed.
 Lemma htp_dt_st r src dst len buf : rstatic r (snd (fst (fst (htp_dt r src dst len buf)))).
 Proof.
